@@ -364,6 +364,7 @@ type gen struct {
 	r      *rand.Rand
 	n      int
 	topics []*string
+	giant  bool // now and then a message id of several KB (larger than any realistic limit used with it)
 }
 
 // str returns a string of exactly n bytes that is unique within the case as long as n >= 3
@@ -387,6 +388,9 @@ func (g *gen) pick(xs ...int) int { return xs[g.r.Intn(len(xs))] }
 func (g *gen) between(lo, hi int) int { return lo + g.r.Intn(hi-lo+1) }
 
 func (g *gen) idLen(dup bool) int {
+	if g.giant && g.r.Intn(12) == 0 {
+		return g.between(2500, 9000)
+	}
 	switch g.r.Intn(10) {
 	case 0:
 		if dup {
@@ -442,11 +446,12 @@ func (g *gen) count(max int) int {
 
 type profile struct {
 	msgs, msgMax, subs, grafts, prunes, entries, idsPer int
-	dup, degenerate                                     bool
+	dup, degenerate, giant                              bool
 }
 
 func (g *gen) rpc(p profile) pb.RPC {
 	var r pb.RPC
+	g.giant = p.giant
 	tru, fls := true, false
 	for i, n := 0, g.count(p.msgs); i < n; i++ {
 		m := &pb.Message{Data: []byte(g.str("data", g.pick(2, 16, 100, 126, 127, 128, 129, 300, p.msgMax)))}
@@ -580,6 +585,7 @@ func TestC11Random(t *testing.T) {
 		{msgs: 0, msgMax: 2, subs: 0, grafts: 0, prunes: 0, entries: 9, idsPer: 150, dup: false},        // control only: ids only
 		{msgs: 6, msgMax: 1000, subs: 10, grafts: 10, prunes: 10, entries: 10, idsPer: 100, dup: false}, // everything, large
 		{msgs: 2, msgMax: 40, subs: 2, grafts: 2, prunes: 2, entries: 2, idsPer: 4, dup: true, degenerate: true},
+		{msgs: 3, msgMax: 300, subs: 3, grafts: 3, prunes: 3, entries: 4, idsPer: 8, giant: true}, // message ids of several KB
 	}
 	for c := 0; c < nCases; c++ {
 		// every case has its own generator so that a case can be reproduced from (seed, case number)
